@@ -17,6 +17,18 @@ def handle (args : List String) : String :=
          !(["none", "tablename", "transaction", "transaction-bucket"].contains pmethod) then "bad-op" else
       s!"tick={msToNs t} upd={msToNs u} max={msToNs m} workers={w} chans={w} depth={d} mem={mm} routing={routing} pmethod={pmethod} buckets={b} wl={wl} rx={rx} list={list} noold={noold}"
     | _, _, _, _, _, _, _ => "bad-op"
+  | ["ddreport", nw, nc] =>
+    -- every statistic the aggregator reported reaches Datadog as its own metric line: `bifrost.<component>.<name>.<unit>`,
+    -- a count as `|c`, each part of a histogram report as a gauge `|g` (C19: nothing lost, nothing merged)
+    match nw.toNat?, nc.toNat? with
+    | some nw, some nc =>
+      let hist := (List.range nw).flatMap fun i =>
+        ["", "_avg", "_max", "_min"].zipIdx.map fun (sfx, j) =>
+          "bifrost.batcher.batch_write_wait" ++ sfx ++ ".ms:" ++ toString (100 * (i + 1) + j) ++ "|g"
+      let cnt := (List.range nc).map fun i => "bifrost.transport.written.count:" ++ toString (1000 + i + 1) ++ "|c"
+      let all := (hist ++ cnt).toArray.qsort (· < ·) |>.toList
+      s!"lines={all.length} {",".intercalate all}"
+    | _, _ => "bad-op"
   | ["kinput", pmethod, n] =>
     -- one PutRecords call per batch on the configured stream, the records' data in batch order; the Kinesis partition key
     -- of a record is the batch's partition key, or - without a partition method - the record's own LSN (C06)
